@@ -138,6 +138,15 @@ ARG_OPS = [
     ("incoherent(DM, ref Quantity)", catalogue.is_radio, lambda z: (catalogue._dm_for(z, 3.1), z.channel_freqs[0]),
      lambda z, dm, ref: pb.incoherent_dedispersion(z, dm, ref_freq=ref)),
     ("concatenate(list of pieces)", lambda z: True, lambda z: ([z[:5], z[5:7], z[7:]],), lambda z, ps: pb.concatenate(ps)),
+    ("concatenate(pieces with different meta)", lambda z: True,
+     lambda z: ([type(z).like(z[:5], meta={"a": 1, "shared": [1]}), type(z).like(z[5:7], meta={"b": [2], "shared": [9]}),
+                 type(z).like(z[7:], meta=None)],), lambda z, ps: pb.concatenate(ps)),
+    ("ERR concatenate(pieces with different meta, gap)", lambda z: True,
+     lambda z: ([type(z).like(z[:5], meta={"a": 1}), type(z).like(z[6:], meta={"b": [2]})],), lambda z, ps: pb.concatenate(ps)),
+    ("freq_shift(everything out of band)", catalogue.is_bb, lambda z: (1.0 * z.sample_rate, -3 * z.sample_rate),
+     lambda z, q, q2: (pb.freq_shift(z, q), pb.freq_shift(z, q2), pb.freq_shift(z, catalogue.per_chan(z, [1.0, -2.0]) * z.sample_rate))),
+    ("time_shift(everything shifted out)", floaty, lambda z: (float(len(z)), -3.0 * len(z)),
+     lambda z, a, b: (pb.time_shift(z, a), pb.time_shift(z, b), pb.time_shift(z, a, crop=True))),
     ("contains(Time array)", lambda z: True, lambda z: (Time(["2021-01-01T00:00:00", "2021-01-01T00:00:00.000005"], precision=9),),
      lambda z, t: z.contains(t)),
     ("ufunc with ndarray operand", lambda z: True, lambda z: (np.ones(z.shape[-1]),), lambda z, a: z * a),
